@@ -287,13 +287,28 @@ def install(I):
             np_tab[name] = Builtin("numpy." + name, lambda ctx, *a, **k: fn(ctx, *a, **k))
             return fn
         return deco
-    np_tab = {"ndarray": nd, "nan": Opaque(None, "nan", {"scalar": True})}
+    rec_cls = ClassVal("recarray", None, [nd], {}, external="numpy.recarray")
+    rec_cls.ns["__instancecheck_model__"] = lambda ctx, v: isinstance(v, RecArr)
+    I.recarray_class = rec_cls
+    np_tab = {"ndarray": nd, "recarray": rec_cls, "nan": Opaque(None, "nan", {"scalar": True})}
     for nm in DTYPE_NAMES:
         np_tab.setdefault(nm, ClassVal(nm, None, [I.builtins["object"]], {}, external="numpy." + nm))
     np_tab["generic"] = ClassVal("generic", None, [I.builtins["object"]], {}, external="numpy.generic")
 
     @ext("array")
     def _array(ctx, v, dtype=None, **k):
+        if isinstance(dtype, ListVal) and dtype.items and all(isinstance(d, TupleVal) and len(d.items) == 2 and isinstance(d.items[0], str) for d in dtype.items):
+            # numpy.array([row], dtype=[(name, type), ...]): a structured array of one record
+            ctx.assumed_ext.add("numpy.array([row], dtype=[(name, type), ...]): one record whose field `name` is the element of the row at that position; "
+                                ".view(numpy.recarray) gives attribute access to the fields")
+            rows = I.iterate(ctx, v)
+            if len(rows) != 1:
+                raise Unsupported("structured array with other than one record")
+            row = I.iterate(ctx, rows[0])
+            names = [d.items[0] for d in dtype.items]
+            if len(row) != len(names):
+                raise I.raise_exc("ValueError")
+            return RecArr(names, dict(zip(names, row)))
         ctx.assumed_ext.add("numpy.array / asarray: 1-D array of the elements of a sequence (same values)")
         a = as_narr(I, ctx, v)
         if a is None:
@@ -384,6 +399,34 @@ def install(I):
         if b == "bool" or (a == "float" and b in ("int", "uint8")) or a in ("object", "str"):
             return False
         raise Unsupported(f"numpy.can_cast({a}, {b}) depends on the bit widths, which the dtype tags do not carry")
+
+    for _nm in ("str_", "record", "void", "integer", "floating", "number", "bool_", "object_"):
+        np_tab.setdefault(_nm, Opaque(None, "numpy." + _nm, {"np_kind": _nm}))
+
+    @ext("issubdtype")
+    def _issubdtype(ctx, dt, kind):
+        k = kind.attrs.get("np_kind") if isinstance(kind, Opaque) else (kind.name if isinstance(kind, ClassVal) else None)
+        tag = dt.tag if isinstance(dt, DType) else None
+        is_record = isinstance(dt, Opaque) and dt.attrs.get("record")
+        if k in ("record", "void"):
+            return bool(is_record)
+        if is_record:
+            return False
+        if k == "str_" and tag is not None:
+            return tag == "str"
+        if k == "integer" and tag is not None:
+            return tag in ("int", "uint8")
+        if k == "floating" and tag is not None:
+            return tag == "float"
+        if k == "bool_" and tag is not None:
+            return tag == "bool"
+        raise Unsupported(f"numpy.issubdtype({dt!r}, {kind!r})")
+
+    @ext("full_like")
+    def _full_like(ctx, a, v, **k):
+        if isinstance(a, NArr):
+            return NArr(a.n, lambda i: v, a.dtype, "full_like")
+        return v            # a 0-d / one-record operand: the fill value itself (it broadcasts)
 
     @ext("empty_like")
     def _empty_like(ctx, a):
@@ -651,6 +694,26 @@ def lift2(op, a, b):
     Bv = b if isinstance(b, NArr2) else None
     ref = A or Bv
     return NArr2(ref.rows, ref.cols, lambda i, j: op(A.elem(i, j) if A else a, Bv.elem(i, j) if Bv else b), ref.dtype, "op2")
+
+
+class RecArr:
+    """numpy structured array / recarray of ONE record: field name -> value (a scalar, or a nested RecArr)"""
+
+    def __init__(self, names, fields):
+        self.names, self.fields = list(names), dict(fields)
+
+    def __repr__(self):
+        return f"RecArr({self.names})"
+
+
+def recarr_getattr(I, ctx, r, name):
+    if name == "view":
+        return Builtin("view", lambda ctx2, *a: r)
+    if name == "dtype":
+        return Opaque(None, "record-dtype", {"fields": {"names": TupleVal(list(r.names))}, "record": True})
+    if name in r.fields:
+        return r.fields[name]
+    return None
 
 
 NPROUND = z3.Function("NPROUND", z3.RealSort(), z3.IntSort(), z3.RealSort())
